@@ -196,6 +196,37 @@ func (c ColumnType) Elem() ColumnType {
 }
 
 // IsArray reports whether ColumnType is composite.
+// splitTypeParams splits type parameters like "String, Enum8('a' = 1, 'b' = 2)"
+// by top-level commas, i.e. ignoring commas in nested parentheses and quotes.
+func splitTypeParams(s string) []string {
+	var (
+		out   []string
+		depth int
+		quote bool
+		start int
+	)
+	for i := 0; i < len(s); i++ {
+		switch ch := s[i]; {
+		case quote:
+			if ch == '\\' {
+				i++
+			} else if ch == '\'' {
+				quote = false
+			}
+		case ch == '\'':
+			quote = true
+		case ch == '(':
+			depth++
+		case ch == ')':
+			depth--
+		case ch == ',' && depth == 0:
+			out = append(out, strings.TrimSpace(s[start:i]))
+			start = i + 1
+		}
+	}
+	return append(out, strings.TrimSpace(s[start:]))
+}
+
 func (c ColumnType) IsArray() bool {
 	return strings.HasPrefix(string(c), string(ColumnTypeArray))
 }
